@@ -340,13 +340,24 @@ bool TimeZoneInfo::ExtendTransitions() {
   // (well, at least the first transition in the 401st year) so that the
   // end of the 400th year is mapped back to an extended year. And first
   // we may also need two additional transitions for the current year.
-  transitions_.reserve(transitions_.size() + 2 + 401 * 2);
+  transitions_.reserve(transitions_.size() + 2 + 402 * 2);
   extended_ = true;
 
   const Transition& last(transitions_.back());
   const std::int_fast64_t last_time = last.unix_time;
   const TransitionType& last_tt(transition_types_[last.type_index]);
   last_year_ = LocalTime(last_time, last_tt).cs.year();
+  // The local time shown just before the last transition can be in the
+  // following year (the clock went back across New Year). That year is
+  // still affected by the transition, so it must not be the target of
+  // the 400-year mapping: generate one more year in that case.
+  const TransitionType& prev_tt(
+      transition_types_[transitions_.size() > 1
+                            ? transitions_[transitions_.size() - 2].type_index
+                            : default_transition_type_]);
+  const year_t limit =
+      std::max(last_year_, (LocalTime(last_time, prev_tt).cs - 1).year()) +
+      401;
   bool leap_year = IsLeap(last_year_);
   const civil_second jan1(last_year_);
   std::int_fast64_t jan1_time = jan1 - civil_second();
@@ -354,7 +365,7 @@ bool TimeZoneInfo::ExtendTransitions() {
 
   Transition dst = {0, dst_ti, civil_second(), civil_second()};
   Transition std = {0, std_ti, civil_second(), civil_second()};
-  for (const year_t limit = last_year_ + 401;; ++last_year_) {
+  for (;; ++last_year_) {
     auto dst_trans_off = TransOffset(leap_year, jan1_weekday, posix.dst_start);
     auto std_trans_off = TransOffset(leap_year, jan1_weekday, posix.dst_end);
     dst.unix_time = jan1_time + dst_trans_off - posix.std_offset;
